@@ -1,7 +1,8 @@
 import PbVerif.Lemmas.Poly
+import PbVerif.Lemmas.Poly2d
 /-! C08 — polynomial baselines are least-squares polynomials with usable coefficients. -/
 namespace PbVerif.C08
-open PbVerif.Poly PbVerif.Lemmas
+open PbVerif.Poly PbVerif.Poly2d PbVerif.Lemmas
 
 /-- coefficients converted to the user's x domain evaluate to the fitted polynomial, for every domain
 (offset and scale of any magnitude and sign), every order and every x -/
@@ -42,5 +43,134 @@ theorem normal_eq_unique (n k : Nat) (A : Fin n → Fin k → Rat) (w b : Fin n 
 /-- non-vacuity: p(t) = 1 + 2t + 3t² on the domain [10, 14] (offset 12, scale 2), evaluated at x = 13 -/
 example : evalPoly (convertCoef [1, 2, 3] 12 2) 13 = evalPoly [1, 2, 3] (1/2) ∧ convertCoef [1, 2, 3] 12 2 = [97, -17, 3/4] := by
   decide +kernel
+
+/-! ### 2-D `max_cross` (`_PolyHelper2D.recalc_vandermonde`), every order pair `(a, b)`, every `max_cross` incl. `None` -/
+
+/-- the flags produced by the loop over `enumerate(itertools.product(range(a+1), range(b+1)))` are, column by
+column, the flag computed from `val = divmod(idx, b + 1)`; there is one flag per column -/
+theorem maxCross_loop_eq (a b : Nat) (mc : Option Nat) :
+    keptCols a b mc = (List.range ((a + 1) * (b + 1))).map (keptCol a b mc) ∧
+    (keptCols a b mc).length = (a + 1) * (b + 1) :=
+  ⟨keptCols_eq a b mc, keptCols_length a b mc⟩
+
+/-- column `idx` survives the loop iff the monomial it holds, `x^(idx / (b+1)) z^(idx % (b+1))`, is in the
+documented set (a pure power, or both exponents ≤ max_cross; everything for `None`) -/
+theorem maxCross_kept_iff (a b : Nat) (mc : Option Nat) (idx : Nat) (d : Bool) (h : idx < (a + 1) * (b + 1)) :
+    (keptCols a b mc).getD idx d = allowed mc (idx / (b + 1)) (idx % (b + 1)) := by
+  rw [keptCols_getD a b mc idx d h, keptCol_eq_allowed]
+
+/-- in terms of exponents: the column of `x^i z^j` (i ≤ a, j ≤ b) is kept iff `(i, j)` is allowed -/
+theorem maxCross_kept_monomial (a b : Nat) (mc : Option Nat) (i j : Nat) (d : Bool) (hi : i ≤ a) (hj : j ≤ b) :
+    (keptCols a b mc).getD (colIndex a b i j) d = allowed mc i j := by
+  rw [maxCross_kept_iff a b mc _ d (colIndex_lt a b i j hi hj), colIndex_div a b i j hj, colIndex_mod a b i j hj]
+
+/-- `(i, j) ↦ i (b+1) + j` is a bijection between exponent pairs `i ≤ a, j ≤ b` and column indices
+`< (a+1)(b+1)`, with inverse `idx ↦ (idx / (b+1), idx % (b+1))` -/
+theorem colIndex_bijection (a b : Nat) :
+    (∀ i j, i ≤ a → j ≤ b → colIndex a b i j < (a + 1) * (b + 1) ∧
+        colIndex a b i j / (b + 1) = i ∧ colIndex a b i j % (b + 1) = j) ∧
+    (∀ idx, idx < (a + 1) * (b + 1) → idx / (b + 1) ≤ a ∧ idx % (b + 1) ≤ b ∧
+        colIndex a b (idx / (b + 1)) (idx % (b + 1)) = idx) :=
+  ⟨fun i j hi hj => ⟨colIndex_lt a b i j hi hj, colIndex_div a b i j hj, colIndex_mod a b i j hj⟩,
+   fun idx h => ⟨div_le_of_lt_mul a b idx h, by have := Nat.mod_lt idx (show b + 1 > 0 by omega); omega, colIndex_divmod a b idx⟩⟩
+
+/-- `max_cross` at or above both orders zeroes nothing: the matrix is the one `None` gives -/
+theorem maxCross_none_of_large (a b m : Nat) (h : max a b ≤ m) : keptCols a b (some m) = keptCols a b none :=
+  (keptCols_some_eq_none_iff a b m).2 (Or.inr (Or.inr ⟨by omega, by omega⟩))
+
+/-- … and that is sharp: an integer `max_cross` leaves the matrix untouched exactly when one of the orders is 0
+or `max_cross ≥ max a b` (so for `(1, 3)`, `max_cross = 1 ≥ min` still removes columns) -/
+theorem maxCross_none_iff (a b m : Nat) :
+    keptCols a b (some m) = keptCols a b none ↔ a = 0 ∨ b = 0 ∨ max a b ≤ m := by
+  rw [keptCols_some_eq_none_iff]; omega
+
+/-- `max_cross = 0` keeps exactly the pure powers -/
+theorem maxCross_zero (i j : Nat) : allowed (some 0) i j = true ↔ i = 0 ∨ j = 0 := by
+  rw [allowed_iff]; omega
+
+/-- the allowed sets grow with `max_cross`, and `None` allows everything -/
+theorem maxCross_mono (m m' i j : Nat) (hm : m ≤ m') (h : allowed (some m) i j = true) :
+    allowed (some m') i j = true ∧ allowed none i j = true :=
+  ⟨allowed_mono m m' i j hm h, rfl⟩
+
+/-- lowering either exponent of an allowed monomial gives an allowed monomial -/
+theorem allowed_downward_closed (mc : Option Nat) (i j k l : Nat) (h : allowed mc i j = true) (hk : k ≤ i) (hl : l ≤ j) :
+    allowed mc k l = true := allowed_down mc i j k l h hk hl
+
+/-- a row of the Vandermonde matrix with its columns zeroed, times ANY coefficient vector, is `polyval2d` of
+the reshaped coefficient matrix with the excluded entries set to zero: every surface `V c` is a polynomial of
+orders ≤ (a, b) whose excluded monomials have coefficient 0, whatever the solver returned in those slots -/
+theorem vander_masked_apply (a b : Nat) (mc : Option Nat) (coef : List Rat) (x z : Rat) :
+    dot (vanderRowMasked a b mc x z) coef = evalPoly2 (maskCoef mc (reshapeCoef a b coef)) x z :=
+  Lemmas.vander_masked_apply a b mc coef x z
+
+/-- without zeroing: the column order of the reshaped `polyvander2d` is the order in which `polyval2d` reads
+`coef.reshape(a+1, b+1)` -/
+theorem vander_apply (a b : Nat) (coef : List Rat) (x z : Rat) :
+    dot (vanderRow a b x z) coef = evalPoly2 (reshapeCoef a b coef) x z :=
+  Lemmas.vander_apply a b coef x z
+
+/-- masking does what it says, entry by entry (inside the matrix) -/
+theorem maskCoef_spec (mc : Option Nat) (c : List (List Rat)) (i j : Nat) (hi : i < c.length)
+    (hj : j < (c.getD i []).length) :
+    ((maskCoef mc c).getD i []).getD j 0 = if allowed mc i j then (c.getD i []).getD j 0 else 0 :=
+  maskCoef_entry mc c i j hi hj
+
+/-- `_convert_coef2d` = `T_x C T_z'` keeps excluded monomials at zero: `T[i, k] = 0` unless `i ≤ k`, and the
+allowed set is downward closed, so a coefficient matrix that vanishes on the excluded monomials in the
+mapped domain vanishes on them in the user's domain — for every domain (no hypothesis on offset or scale) -/
+theorem convertCoef2d_preserves_exclusion (mc : Option Nat) (c : List (List Rat)) (nz : Nat)
+    (hrect : ∀ row ∈ c, row.length = nz) (ox sx oz sz : Rat)
+    (hex : ∀ k l, k < c.length → l < nz → allowed mc k l = false → (c.getD k []).getD l 0 = 0)
+    (i j : Nat) (hi : i < c.length) (hj : j < nz) (hij : allowed mc i j = false) :
+    ((convertCoef2d c ox sx oz sz).getD i []).getD j 0 = 0 := by
+  have h0 : (c.getD 0 []).length = nz := by
+    apply hrect
+    have : 0 < c.length := by omega
+    simp [List.getD_eq_getElem?_getD, this]
+  exact convertCoef2d_excluded mc c ox sx oz sz (by rw [h0]; exact hex) i j hi (by rw [h0]; exact hj) hij
+
+/-- the whole 2-D chain with `max_cross`: for ANY solver output `coef`, the coefficient matrix with its excluded
+entries zero, converted to the user's domains, (1) evaluates on the user's `(x, z)` to the row of the zeroed
+Vandermonde matrix at the mapped point times `coef` — the returned baseline — and (2) is zero at every excluded
+monomial, so the exclusion can be checked on the returned coefficients -/
+theorem maxCross_returned_coef (a b : Nat) (mc : Option Nat) (coef : List Rat) (ox sx oz sz x z : Rat)
+    (hsx : sx ≠ 0) (hsz : sz ≠ 0) :
+    evalPoly2 (convertCoef2d (maskCoef mc (reshapeCoef a b coef)) ox sx oz sz) x z =
+      dot (vanderRowMasked a b mc ((x - ox) / sx) ((z - oz) / sz)) coef ∧
+    ∀ i j, i ≤ a → j ≤ b → allowed mc i j = false →
+      ((convertCoef2d (maskCoef mc (reshapeCoef a b coef)) ox sx oz sz).getD i []).getD j 0 = 0 := by
+  have hrect := maskCoef_reshape_rect a b mc coef
+  have hlen : (maskCoef mc (reshapeCoef a b coef)).length = a + 1 := by
+    rw [maskCoef_length, reshapeCoef_length]
+  refine ⟨?_, ?_⟩
+  · rw [Lemmas.convertCoef2d_eval _ (b + 1) hrect ox sx oz sz x z hsx hsz, Lemmas.vander_masked_apply]
+  · intro i j hi hj hij
+    refine convertCoef2d_preserves_exclusion mc _ (b + 1) hrect ox sx oz sz ?_ i j (by omega) (by omega) hij
+    intro k l hk hl hkl
+    rw [hlen] at hk
+    have hk' : k < (reshapeCoef a b coef).length := by rw [reshapeCoef_length]; exact hk
+    refine maskCoef_excluded mc _ k l hk' ?_ hkl
+    rw [reshapeCoef_row a b coef k hk, List.length_map, List.length_range]; exact hl
+
+/-- non-vacuity, (a, b) = (1, 3), max_cross = 1: columns of x z² and x z³ go, x z stays -/
+example : keptCols 1 3 (some 1) = [true, true, true, true, true, true, false, false] ∧
+    keptCols 1 3 none = List.replicate 8 true ∧ keptCols 1 3 (some 3) = keptCols 1 3 none ∧
+    keptCols 1 3 (some 2) ≠ keptCols 1 3 none ∧ colIndex 1 3 1 2 = 6 := by decide
+/-- (2, 2), max_cross = 0: only 1, z, z², x, x² -/
+example : keptCols 2 2 (some 0) = [true, true, true, true, false, false, true, false, false] ∧
+    allowedRows 2 2 (some 0) = [[true, true, true], [true, false, false], [true, false, false]] := by decide
+/-- the masked product really drops the excluded terms and nothing else: at (x, z) = (2, 3), orders (1, 3) -/
+example : dot (vanderRowMasked 1 3 (some 1) 2 3) [1, 2, 3, 4, 5, 6, 7, 8] = 188 ∧
+    dot (vanderRow 1 3 2 3) [1, 2, 3, 4, 5, 6, 7, 8] = 746 ∧
+    maskCoef (some 1) (reshapeCoef 1 3 [1, 2, 3, 4, 5, 6, 7, 8]) = [[1, 2, 3, 4], [5, 6, 0, 0]] := by decide +kernel
+/-- a matrix with zeros at the excluded places of (1, 3), max_cross = 1, converted to the domains [10, 14] × [-7/2, -5/2]:
+the excluded entries stay 0, the allowed cross term x z does not vanish -/
+example : convertCoef2d [[1, 2, 3, 4], [5, 6, 0, 0]] 12 2 (-3) (1/2) =
+    [[739, 868, 300, 32], [41/2, 6, 0, 0]] := by decide +kernel
+/-- the chain on a concrete point: user domains [10, 14] × [-7/2, -5/2], (x, z) = (13, -11/4) ↦ (1/2, 1/2) -/
+example : evalPoly2 (convertCoef2d (maskCoef (some 1) (reshapeCoef 1 3 [1, 2, 3, 4, 5, 6, 7, 8])) 12 2 (-3) (1/2)) 13 (-11/4) =
+      dot (vanderRowMasked 1 3 (some 1) (1/2) (1/2)) [1, 2, 3, 4, 5, 6, 7, 8] ∧
+    dot (vanderRowMasked 1 3 (some 1) (1/2) (1/2)) [1, 2, 3, 4, 5, 6, 7, 8] = 29/4 := by decide +kernel
 
 end PbVerif.C08
